@@ -465,7 +465,13 @@ class Replayer:
             real[e["dst"]] = got
             # bands and Berry curvature of the reloaded system (numeric part of the statement)
             if herm and e["src"] in real and (e["fresh"] or op != "LoadNpz"):
-                dev = bands_deviation(bands(real[e["src"]]), bands(got), src["cen"] == gp["cen"])
+                ref = bands(real[e["src"]])
+                bg, bex = real_call(bands, got)
+                if bex is not None:
+                    self.rep.violation("evaluate_k:reloaded_system", dict(info, step=op, exception=bex, what="evaluate_k raises on the reloaded system, not on the original"))
+                    ok = False
+                    break
+                dev = bands_deviation(ref, bg, src["cen"] == gp["cen"])
                 self.maxdev = max(self.maxdev, dev)
                 self.numeric += len(KPTS)
                 if not dev <= 1e-8:
@@ -697,9 +703,14 @@ def record_roundtrips(rep, vio, rng, n, wd):
                 except ValueError as ve:
                     rec["out"] = dict(err="projection: " + str(ve))
                 if herm and rec["out"]["err"] == "" and not ps["phon"]:
-                    dev = bands_deviation(bands(s), bands(got), ps["cen"] == rec["out"]["sys"]["cen"])
-                    maxdev = max(maxdev, dev)
-                    if not dev <= 1e-8:
+                    ref = bands(s)
+                    bg, bex = real_call(bands, got)
+                    dev = bands_deviation(ref, bg, ps["cen"] == rec["out"]["sys"]["cen"]) if bex is None else float("inf")
+                    maxdev = max(maxdev, dev) if bex is None else maxdev
+                    if bex is not None:
+                        vio.violation("evaluate_k:reloaded_system", dict(meta=m, exception=bex, origin="random recorded round trip",
+                                                                         what="evaluate_k raises on the reloaded system, not on the original"))
+                    elif not dev <= 1e-8:
                         vio.violation("evaluate_k:reloaded_system", dict(meta=m, deviation=dev, kpoints=KPTS, origin="random recorded round trip",
                                                                          what="energy / band_gradients / berry_curvature evaluated directly on the reloaded system"))
             m["exception"] = ex
